@@ -169,7 +169,8 @@ Definition norm (l : list lk) : list lk := flat_map norm1 l.
 Definition M := "snoopy_tsrm_threadRepo_mutex".
 Definition R := "snoopy_tsrm_threadRepo".
 Definition traversal : lk :=
-  KLoop [KListOp "fetchNextNode" R] [KIf COther [KContinue] []; KIf COther [KGoto "FOUND"] []].
+  KLoop [KListOp "fetchNextNode" R] [KIf COther [KContinue] []; KIf COther [KBreak] []].
+(* `goto FOUND;` with `FOUND:` right behind the loop and `break;` are the same exit: the translator writes KBreak for both *)
 
 Definition expected_core : list (string * nat * list lk) :=
   [ ("snoopy_tsrm_ctor", 0,
@@ -181,11 +182,11 @@ Definition expected_core : list (string * nat * list lk) :=
      [KCall "snoopy_tsrm_getCurrentThreadRepoEntry" []; KIf COther [KReturn] [];
       KLock M; KListOp "remove" R; KUnlock M; KReturn]);
     ("snoopy_tsrm_doesThreadRepoEntryExist", 2,
-     [KIf (CParamNe 1 1) [KLock M] []; traversal; KLabel "FOUND"; KIf (CParamNe 1 1) [KUnlock M] []; KReturn]);
+     [KIf (CParamNe 1 1) [KLock M] []; traversal; KIf (CParamNe 1 1) [KUnlock M] []; KReturn]);
     ("snoopy_tsrm_createNewThreadData", 1, [KReturn]);
     ("snoopy_tsrm_getCurrentThreadId", 0, [KReturn]);
     ("snoopy_tsrm_getCurrentThreadRepoEntry", 0,
-     [KCall "snoopy_tsrm_getCurrentThreadId" []; KLock M; traversal; KLabel "FOUND"; KUnlock M; KReturn]);
+     [KCall "snoopy_tsrm_getCurrentThreadId" []; KLock M; traversal; KUnlock M; KReturn]);
     ("snoopy_tsrm_getCurrentThreadData", 0,
      [KCall "snoopy_tsrm_getCurrentThreadRepoEntry" []; KIf COther [KReturn] []; KReturn]);
     ("snoopy_tsrm_get_configuration", 0, [KCall "snoopy_tsrm_getCurrentThreadData" []; KReturn]);
